@@ -19,6 +19,9 @@ from __future__ import annotations
 
 import datetime as dt
 import json
+import os
+import shutil
+import tempfile
 import zlib
 from concurrent.futures import ThreadPoolExecutor
 from typing import Any, Dict, List, Optional, Tuple
@@ -244,7 +247,11 @@ def call_seq(steps, eps: List[dict], order: List[int], scap, agent: str, text: s
     out = []
     E.reset_global_caches()
     try:
-        for cfg, now in steps:
+        for step in steps:
+            if callable(step):
+                step(state)        # an edit of the engine state between two calls
+                continue
+            cfg, now = step
             extra: Dict[str, Any] = {}
             if scap is not None:
                 extra["slice_budgets"] = {"t2_k": scap}
@@ -468,7 +475,12 @@ def random_world(seed: int, i: int):
         text = " ".join(r.choice(VOCAB) for _ in range(r.randrange(1, 4)))
         days = r.choice([0, 1, 9, 10, 11, 29, 30, 31, 40, 200, 364, 365, 400, r.randrange(0, 500)])
         secs = r.choice([0, 0, 1, 43200, 86399])
-        ts = (NOW - dt.timedelta(days=days, seconds=secs)).isoformat().replace("+00:00", "Z")
+        inst = NOW - dt.timedelta(days=days, seconds=secs)
+        ts = inst.isoformat().replace("+00:00", "Z")
+        if r.random() < 0.3:
+            # the same instant written with a non-zero UTC offset (ISO 8601 allows it; the oracle parses offsets)
+            off = r.choice([dt.timedelta(hours=9), dt.timedelta(hours=-5, minutes=-30), dt.timedelta(hours=14), dt.timedelta(hours=-11)])
+            ts = inst.astimezone(dt.timezone(off)).isoformat()
         aux: Dict[str, Any] = {"importance": r.choice([0.0, 0.5, 1.0, r.random()])}
         c = r.choice(["c1", "c2", "c3", "c4", None])
         if c:
@@ -587,6 +599,24 @@ def random_case(args) -> Tuple[List[Tuple[str, str, str]], Dict[str, int]]:
             k = next((j for j, (x, y) in enumerate(zip(proj(warm), proj(cold))) if x != y), min(len(proj(warm)), len(proj(cold))))
             fails.append(("TierRules", "warm-cache", f"{where}: asked at {LATER_ISO} after the same question at {NOW_ISO} (stage cache on) returns "
                                                      f"{proj(warm)[k:k + 3]} where a fresh retrieval returns {proj(cold)[k:k + 3]} (position {k}; recent_days={cf['exact_recent_days']})"))
+        # a graph edit between two identical questions that keeps the SET of labels but moves a label to another node
+        # (n:a "Apple" <-> n:y "unmentioned"): the residual nudges of the second answer name the node that carries the
+        # label now
+        from clematis.engine.types import Node as _Node
+        st_sw = E.mk_store(graphs)
+
+        def swap(state):
+            state["store"].upsert_nodes("g:surface", [_Node(id="n:a", label="unmentioned"), _Node(id="n:y", label="Apple")])
+        seq_sw = call_seq([(cached, NOW_ISO), swap, (cached, NOW_ISO)], eps, order, scap, agent, text, st_sw)
+        st_sw2 = E.mk_store(graphs)
+        swap({"store": st_sw2})
+        fresh_sw = call_seq([(base_cfg, NOW_ISO)], eps, order, scap, agent, text, st_sw2)[0]
+        counts["WarmCacheAfterLabelMove"] += 1
+        if sorted(d_.get("id") for d_ in (seq_sw[-1].graph_deltas_residual or [])) != sorted(d_.get("id") for d_ in (fresh_sw.graph_deltas_residual or [])):
+            fails.append(("ResidualLabelsFromUsedHits", "warm-cache-label-move",
+                          f"{where}: after the labels of n:a and n:y were swapped the same question (stage cache on) nudges "
+                          f"{sorted(d_.get('id') for d_ in (seq_sw[-1].graph_deltas_residual or []))}, a fresh retrieval nudges "
+                          f"{sorted(d_.get('id') for d_ in (fresh_sw.graph_deltas_residual or []))}"))
         par_cfg = with_t2(base_cfg, perf={"enabled": True, "parallel": {"enabled": True, "t2": True, "max_workers": 3}})
         par = call_seq([(par_cfg, NOW_ISO)], eps, order, scap, agent, text, store)[0]
         counts["ParallelPathSameRetrieval"] += 1
@@ -613,6 +643,45 @@ def random_case(args) -> Tuple[List[Tuple[str, str, str]], Dict[str, int]]:
         if ids2 != ids:
             counts[f"{name}_reordered"] += 1
     return fails, counts
+
+
+def orchestrator_cap_case(k) -> Tuple[List[Tuple[str, str, str]], Dict[str, int]]:
+    """the per-slice cap as the orchestrator derives it from scheduler.budgets.t2_k (0 is a cap, not "no cap"):
+    one real run_turn, the T2 result observed through the stage seam"""
+    import collections
+    from .. import engine as E
+    from ..turnrun import Session
+    import clematis.engine.orchestrator as orch_
+    from clematis.engine.stages.t2 import t2_semantic as real_t2
+    os.environ["CI"] = "true"
+    counts: Dict[str, int] = collections.Counter()
+    fails: List[Tuple[str, str, str]] = []
+    work = tempfile.mkdtemp(prefix="c11cap_", dir=_WORK[0] or "/verif/.work")
+    try:
+        over = {"scheduler": {"enabled": True, "quantum_ms": 100000, "budgets": {"wall_ms": 200000, "t2_k": k}}}
+        s = Session(os.path.join(work, "s"), base_cfg=over)
+        seen: Dict[str, Any] = {}
+
+        def spy(c_, st_, tx_, t1_):
+            r_ = real_t2(c_, st_, tx_, t1_)
+            seen["res"] = r_
+            return r_
+        o = s.run({"sched": True, "cfg_extra": over}, extra_patches=lambda i_: [E.patched_attr(orch_, t2_semantic=spy)])
+        counts["OrchestratorSliceCap"] += 1
+        r = seen.get("res")
+        if o["raised"] or r is None:
+            return [("UsedWithinSliceCap", "raised", f"run_turn with scheduler.budgets.t2_k={k}: {o['raised'] or 'T2 not reached'}")], counts
+        k_used = int((r.metrics or {}).get("k_used", -1))
+        if k_used > k:
+            fails.append(("UsedWithinSliceCap", "orchestrator-cap", f"scheduler.budgets.t2_k={k}: T2 used {k_used} of {len(r.retrieved)} hits"))
+        if k == 0 and (r.graph_deltas_residual or []):
+            fails.append(("ResidualLabelsFromUsedHits", "orchestrator-cap", f"scheduler.budgets.t2_k=0: residual nudges {r.graph_deltas_residual} with no hit allowed to be used"))
+    finally:
+        shutil.rmtree(work, ignore_errors=True)
+    return fails, counts
+
+
+_WORK = [None]
 
 
 # ---- driver -------------------------------------------------------------------------------------------
@@ -721,6 +790,14 @@ def check(run) -> None:
             run.ok("Random.conforms")
         for clause, kind, msg in fails:
             run.fail(clause, _sig(clause, kind), {"seed": a[0], "i": a[1]}, msg, replay={"random": list(a)})
+    _WORK[0] = run.workdir
+    for kk, (fails, counts) in zip((0, 1, 2, 64), pmap(orchestrator_cap_case, [0, 1, 2, 64], chunk=1)):
+        run.traces += 1
+        run.case(("orch_cap", kk))
+        for k, v in counts.items():
+            run.ok(k, v)
+        for clause, kind, msg in fails:
+            run.fail(clause, _sig(clause, kind), {"t2_k": kk}, msg, replay={"orch_cap": kk})
     for must in ("hybrid_reordered", "quality_reordered", "RerankIsPermutation", "RankingLaw.identical_input_ties"):
         if run.clauses.get(must, 0) == 0:
             raise _tlc.TLCError(f"C11: vacuous run: counter {must} is 0")
@@ -740,6 +817,8 @@ def replay(rep) -> int:
         fails = replay_case(r["case"])[0]
     elif "rerank" in r:
         fails = rerank_case(r["rerank"])[0]
+    elif "orch_cap" in r:
+        fails = orchestrator_cap_case(r["orch_cap"])[0]
     else:
         fails = random_case(tuple(r["random"]))[0]
     for f in fails:
